@@ -1,12 +1,12 @@
 CONSTANT Families = {"basis", "sweep", "masks", "zerow", "general", "history", "tset"}
 CONSTANT Dens = {1, 2, 3, 4}
 CONSTANT CoefSel = "small"
-CONSTANT XIds = {1, 3}
+CONSTANT XIds = {1, 7}
 CONSTANT ZIds = {1}
-CONSTANT HIds = {1}
+CONSTANT HIds = {7}
 CONSTANT Lays = {2, 3, 4, 5}
-CONSTANT Mod = 9
-CONSTANT TsMod = 16
+CONSTANT Mod = 12
+CONSTANT TsMod = 24
 INIT Init
 NEXT Next
 INVARIANT C13_Representable
